@@ -69,7 +69,9 @@ _QID = [0]
 def finder_calls(rng: random.Random, mol, seg):
     """alignments and break points for the two finders; returns the calls they emit"""
     out = []
-    ref = SimpleNamespace(positions=[1000 + 9000 * i + rng.randint(0, 3000) for i in range(60)])
+    from src.correlation.optical_map import OpticalMap      # the maps the tools get from CmapReader are OpticalMap objects
+    rpos = [1000 + 9000 * i + rng.randint(0, 3000) for i in range(60)]
+    ref = OpticalMap(2, rpos[-1] + 1000, rpos)
     for trial in range(6):
         n = rng.randint(6, 20)
         r0 = rng.randint(1, 30)
@@ -87,15 +89,18 @@ def finder_calls(rng: random.Random, mol, seg):
             # the same molecule read from its other end, aligned on the reverse strand: ascending reference labels,
             # descending query labels (what AlignmentResultRow.alignedPairs lists for orientation '-')
             top = qpos[-1] + rng.randint(0, 5000)
-            qry = SimpleNamespace(positions=[top - v for v in reversed(qpos)])
+            qry = OpticalMap(0, top + 1, [top - v for v in reversed(qpos)])
             pairs = [SimpleNamespace(reference=SimpleNamespace(siteId=r0 + j), query=SimpleNamespace(siteId=n - j))
                      for j in range(n)]
         else:
-            qry = SimpleNamespace(positions=qpos)
+            qry = OpticalMap(0, qpos[-1] + 1, qpos)
             pairs = [SimpleNamespace(reference=SimpleNamespace(siteId=r0 + j), query=SimpleNamespace(siteId=j + 1))
                      for j in range(n)]
         _QID[0] += 1
         qid = 100 + _QID[0]          # every invocation is fed another molecule
+        if trial == 4:
+            qid = 2                  # a molecule id that is also a chromosome id (two separate id spaces)
+        qry = OpticalMap(qid, qry.length, qry.positions)
         al = SimpleNamespace(queryId=qid, referenceId=2, alignedPairs=pairs)
         for which, finder, brk in (("molecule", mol.look_for_indels_in_breakage, {qid: [b, pairs[b]]}),
                                    ("segment", seg.look_for_indels_in_breakage, {qid: [[b, "x"]]})):
@@ -106,6 +111,11 @@ def finder_calls(rng: random.Random, mol, seg):
                     got.append({"type": ln[0], "chr": int(ln[1]), "rs": int(ln[2]), "re": int(ln[3]), "qid": int(ln[4]),
                                 "qs": int(ln[5]), "qe": int(ln[6]), "len": int(ln[7])})
             out.append({"kind": "finder", "finder": which, "calls": got, "fed": {"qid": qid, "chr": 2, "nbreak": 1}})
+            for c in got:        # the call must carry the coordinates of two consecutive pairs of the alignment it was fed
+                out.append({"kind": "flank", "finder": which, "call": c,
+                            "pairs": [[int(p.reference.siteId), int(p.query.siteId)] for p in pairs],
+                            "refx": list(ref.positions), "qryx": list(qry.positions),
+                            "tag": {"input": "synthetic", "query": qid, "tool": which}})
             for typ, lines in res.items():
                 for ln in lines:
                     out.append({"kind": "call", "finder": which,
@@ -132,7 +142,7 @@ def finder_calls(rng: random.Random, mol, seg):
         pairs = [SimpleNamespace(reference=SimpleNamespace(siteId=r0 + j), query=SimpleNamespace(siteId=j + 1))
                  for j in range(n)]
         al = SimpleNamespace(queryId=qid, referenceId=2, alignedPairs=pairs)
-        res = seg.look_for_indels_in_breakage({2: [al]}, {2: ref}, {qid: SimpleNamespace(positions=qpos)},
+        res = seg.look_for_indels_in_breakage({2: [al]}, {2: ref}, {qid: OpticalMap(qid, qpos[-1] + 1, qpos)},
                                               {qid: [[b1, "x"], [b2, "x"]]})
         got = []
         for typ, lines in res.items():
@@ -156,6 +166,30 @@ def e2e_molecule_indels(args):
     _, mol, _ = sv_modules()
     inp = pipecases.make_input(rng, n_refs=1, n_qry=10, ref_labels=(140, 220), decimals=(idx % 2 == 0),
                                kinds=["split", "indel", "split", "indel", "exact", "split", "indel", "split", "indel", "split"])
+    if idx % 2 == 1:
+        # a second chromosome with the same number of labels (other gaps) and "twin" molecules: for three (window, gap)
+        # choices one split molecule on EACH chromosome, so that two joined molecules have their junction between
+        # reference labels with the same numbers on different chromosomes
+        from lib import gen
+        r1 = inp["refs"][0]
+        xs2 = gen.make_reference(rng, len(r1["bp"]), min_gap=2500, mean_gap=9500)
+        dx2 = pipecases.deci(xs2, rng if idx % 4 == 1 else None)
+        r2 = {"id": r1["id"] + 1, "len": dx2[-1] + rng.randint(10, 200000), "x": dx2, "bp": xs2}
+        inp["refs"].append(r2)
+        qid = max(q["id"] for q in inp["qrys"]) + 3
+        n = len(xs2)
+        for _ in range(3):
+            w1 = rng.randint(12, 18)
+            g = rng.randint(2, 5)
+            w0 = rng.randint(4, n - 2 * w1 - g - 5)
+            for r in (r1, r2):
+                a, _t = gen.cut_query(rng, r["bp"], w0, w0 + w1, sigma=60)
+                b, _t = gen.cut_query(rng, r["bp"], w0 + w1 + g, w0 + 2 * w1 + g, sigma=60)
+                gap = rng.randint(3000, 12000)
+                coords = a + [a[-1] + gap + v for v in b]
+                dq = pipecases.deci(coords, rng if idx % 4 == 1 else None)
+                inp["qrys"].append({"id": qid, "len": dq[-1] + 10, "x": dq, "kind": "twin", "ref": r["id"], "mirrored": False})
+                qid += rng.randint(1, 4)
     wd = os.path.join(workroot, f"c20e2e-{os.getpid()}-{idx}")
     out = {"lines": [], "joined": 0, "status": "ok", "rows": 0}
     try:
@@ -176,7 +210,7 @@ def e2e_molecule_indels(args):
         except Exception as e:
             out["status"] = "finder_raised:" + type(e).__name__
             return out
-        ref = inp["refs"][0]
+        refs_by_id = {r["id"]: r for r in inp["refs"]}
         qmap = {q["id"]: q for q in inp["qrys"]}
         jrec = {r["q"]: r for r in joined}
 
@@ -197,10 +231,10 @@ def e2e_molecule_indels(args):
                                       "qs": deci(c[5]), "qe": deci(c[6]), "len": deci(c[7])}
         out["finder_lines"] = []
         for q, jr in jrec.items():
-            if q in merged or q not in qmap or q not in first or q not in second:
+            if q in merged or q not in qmap or q not in first or q not in second or int(jr["r"]) not in refs_by_id:
                 continue
             out["finder_lines"].append({"fin": {"J": jr["pairs"], "O": first[q]["pairs"], "R": second[q]["pairs"],
-                                                "refx": ref["x"], "qryx": qmap[q]["x"], "lo": 20000, "hi": 1000000,
+                                                "refx": refs_by_id[int(jr["r"])]["x"], "qryx": qmap[q]["x"], "lo": 20000, "hi": 1000000,
                                                 "qid": q, "chr": int(jr["r"])},
                                         "obs": [written[q]] if q in written else [], "tag": {"input": idx, "query": q}})
         for ln in open(target):
@@ -211,12 +245,12 @@ def e2e_molecule_indels(args):
             if (len(c) > 8 and int(c[8]) != 1) or "," in c[4]:      # a row without a Count column is judged as an un-merged call
                 continue
             q = int(c[4])
-            if q not in jrec or q not in qmap:
+            if q not in jrec or q not in qmap or int(jrec[q]["r"]) not in refs_by_id:
                 continue
             out["lines"].append({"kind": "flank",
                                  "call": {"type": c[0], "chr": int(c[1]), "rs": deci(c[2]), "re": deci(c[3]), "qid": q,
                                           "qs": deci(c[5]), "qe": deci(c[6]), "len": deci(c[7])},
-                                 "pairs": jrec[q]["pairs"], "refx": ref["x"], "qryx": qmap[q]["x"],
+                                 "pairs": jrec[q]["pairs"], "refx": refs_by_id[int(jrec[q]["r"])]["x"], "qryx": qmap[q]["x"],
                                  "tag": {"input": idx, "query": q}})
     finally:
         shutil.rmtree(wd, ignore_errors=True)
